@@ -74,7 +74,13 @@ class Subject(Observable[_T], Observer[_T], abc.SubjectBase[_T]):
 
         with self.lock:
             self.check_disposed()
-        super().on_error(error)
+            if self.is_stopped:
+                return
+            # the stopped flag and the exception become visible together: a
+            # subscriber must never see "stopped" without the error
+            self.is_stopped = True
+            self.exception = error
+        self._on_error_core(error)
 
     def _on_error_core(self, error: Exception) -> None:
         with self.lock:
